@@ -504,4 +504,31 @@ def MOp.apply (mm : MMap) : MOp → MMap
 
 def runMMap (ops : List MOp) : MMap := ops.foldl MOp.apply MMap.empty
 
+/-- a workspace of live maps (index = creation order): `fork src` appends `ws[src].copy()` and keeps
+    the original alive, `on i op` applies an operation to map `i`, `mergeCopy i src` is
+    `ws[i].merge(ws[src].copy())`.  Python objects are mutable and `copy` must not share state; in this
+    functional model the other maps are untouched by construction, which is exactly what the
+    correspondence on all live maps checks of the real code. -/
+inductive WOp
+  | fork (src : Nat)
+  | on (i : Nat) (op : MOp)
+  | mergeCopy (i src : Nat)
+  deriving Repr, Inhabited
+
+def WOp.apply (ws : List MMap) : WOp → List MMap
+  | .fork src =>
+    match ws[src]? with
+    | some mm => ws ++ [mm.copy]
+    | none => ws
+  | .on i op =>
+    match ws[i]? with
+    | some mm => ws.set i (op.apply mm)
+    | none => ws
+  | .mergeCopy i src =>
+    match ws[i]?, ws[src]? with
+    | some mm, some other => ws.set i (mm.merge other.copy)
+    | _, _ => ws
+
+def runWorkspace (ops : List WOp) : List MMap := ops.foldl WOp.apply [MMap.empty]
+
 end Amoco.Memory
